@@ -709,45 +709,63 @@ pub fn selfcheck(engine: &dyn Engine, prop: &str, tier: &str, base: u64, n: u64)
     let dir = scratch_dir(&format!("{}-selfcheck", prop));
     let mut hashes: Vec<BTreeMap<u64, String>> = Vec::new();
     for (round, workers) in [(0u64, 1u64), (1, 16), (2, 5)] {
-        let mut children = Vec::new();
-        for w in 0..workers {
-            let out = dir.join(format!("r{}-w{}.log", round, w));
-            let _ = fs::remove_file(&out);
-            let child = Command::new(exe())
-                .arg("worker")
-                .args(["--prop", prop, "--tier", tier])
-                .args(["--base", &base.to_string()])
-                .args(["--from", &w.to_string(), "--to", &n.to_string()])
-                .args(["--stride", &workers.to_string()])
-                .args(["--deadline", "0"])
-                .arg("--out")
-                .arg(&out)
-                .stdout(Stdio::null())
-                .stderr(Stdio::null())
-                .spawn()
-                .expect("spawn");
-            children.push((out, child));
-        }
         let mut map = BTreeMap::new();
-        for (out, mut child) in children {
-            let _ = child.wait();
-            let mut cur_i = 0u64;
-            for line in fs::read_to_string(&out).unwrap_or_default().lines() {
-                let mut it = line.splitn(4, ' ');
-                let tag = it.next().unwrap_or("");
-                if tag == "START" {
-                    cur_i = it.next().and_then(|x| x.parse().ok()).unwrap_or(0);
+        // (worker, from)
+        let mut pending: Vec<(u64, u64)> = (0..workers).map(|w| (w, w)).collect();
+        let mut generation = 0;
+        while !pending.is_empty() {
+            generation += 1;
+            let mut children = Vec::new();
+            for &(w, from) in &pending {
+                if from >= n {
+                    continue;
                 }
-                if tag == "DONE" || tag == "VIOL" {
-                    let i: u64 = cur_i;
-                    let rest = line.splitn(if tag == "DONE" { 4 } else { 3 }, ' ').last().unwrap_or("");
-                    let v: Value = serde_json::from_str(rest).unwrap_or(Value::Null);
-                    let key = if tag == "DONE" {
-                        format!("ok {} {} {} {}", v["trace"], v["decisions"], v["counters"], v["fired"])
-                    } else {
-                        format!("viol {}", v["signature"])
-                    };
-                    map.insert(i, key);
+                let out = dir.join(format!("r{}-w{}-{}.log", round, w, generation));
+                let _ = fs::remove_file(&out);
+                let child = Command::new(exe())
+                    .arg("worker")
+                    .args(["--prop", prop, "--tier", tier])
+                    .args(["--base", &base.to_string()])
+                    .args(["--from", &from.to_string(), "--to", &n.to_string()])
+                    .args(["--stride", &workers.to_string()])
+                    .args(["--deadline", "0"])
+                    .arg("--out")
+                    .arg(&out)
+                    .stdout(Stdio::null())
+                    .stderr(Stdio::null())
+                    .spawn()
+                    .expect("spawn");
+                children.push((w, out, child));
+            }
+            pending.clear();
+            for (w, out, mut child) in children {
+                let status = child.wait().expect("wait");
+                let mut cur_i = 0u64;
+                let mut seen_start = false;
+                for line in fs::read_to_string(&out).unwrap_or_default().lines() {
+                    let mut it = line.splitn(4, ' ');
+                    let tag = it.next().unwrap_or("");
+                    if tag == "START" {
+                        cur_i = it.next().and_then(|x| x.parse().ok()).unwrap_or(0);
+                        seen_start = true;
+                    }
+                    if tag == "DONE" || tag == "VIOL" {
+                        let rest = line
+                            .splitn(if tag == "DONE" { 4 } else { 3 }, ' ')
+                            .last()
+                            .unwrap_or("");
+                        let v: Value = serde_json::from_str(rest).unwrap_or(Value::Null);
+                        let key = if tag == "DONE" {
+                            format!("ok {} {} {} {}", v["trace"], v["decisions"], v["counters"], v["fired"])
+                        } else {
+                            format!("viol {} {}", v["signature"], v["violation"]["detail"])
+                        };
+                        map.insert(cur_i, key);
+                    }
+                }
+                if !status.success() && seen_start {
+                    map.entry(cur_i).or_insert_with(|| format!("died {}", status_text(&status)));
+                    pending.push((w, cur_i + workers));
                 }
             }
         }
@@ -761,13 +779,16 @@ pub fn selfcheck(engine: &dyn Engine, prop: &str, tier: &str, base: u64, n: u64)
         for h in &hashes[1..] {
             if h.get(&i) != a {
                 diffs += 1;
-                println!("NONDETERMINISM run {}: {:?} vs {:?}", i, a, h.get(&i));
+                if diffs < 20 {
+                    println!("NONDETERMINISM run {}: {:?} vs {:?}", i, a, h.get(&i));
+                }
             }
         }
     }
+    let viols = hashes[0].values().filter(|v| v.starts_with("viol")).count();
     println!(
-        "selfcheck {}: {} runs x 3 configurations (1, 16, 5 workers), {} differences",
-        prop, n, diffs
+        "selfcheck {}: {} runs x 3 configurations (1, 16, 5 worker processes), {} runs ended in a (known) violation, {} differences",
+        prop, n, viols, diffs
     );
     if diffs == 0 {
         0
